@@ -67,9 +67,9 @@ def gen_exhaustive(tier, rng):
             for c in ops:
                 yield ('exhaustive_ternary', 1, [straight([a, b, c, Id('substring$')]), [], ''])
                 yield ('exhaustive_ternary', 1, [straight([a, b, c, Id('if$')]), [], ''])
-    names = [Sx(''), Sx('A. B and C D'), Sx('a'), Sx('{x and y} and von Z, Jr, Q'), I(1), F(I(1))]
+    names = [Sx(''), Sx('A. B and C D'), Sx('a'), Sx('{x and y} and von Z, Jr, Q'), Sx('Donald Ervin Knuth and de la Fontaine, Jean'), I(1), F(I(1))]
     ns = INTS + [I(2), Sx('a'), Q('gi')]
-    fmts = [Sx('{ff~}{vv~}{ll}{, jj}'), Sx('{f.~}{ll}'), Sx(''), Sx('{'), Sx('a'), I(1), F(I(1)), Q('gi'), Q('skip$')]
+    fmts = [Sx('{ff~}{vv~}{ll}{, jj}'), Sx('{f.~}{ll}'), Sx('{ff~~}{vv~~}{ll}'), Sx(''), Sx('{'), Sx('a'), I(1), F(I(1)), Q('gi'), Q('skip$')]
     for a in names:
         for b in ns:
             for c in fmts:
@@ -134,7 +134,8 @@ STR_POOL = ['', 'a', 'abc', 'Hello World', 'ab{c}d', "{\\'e}cole {T}e{X}", 'x: y
             'von Last, Jr, First and {Others and Co}', 'x' * 90 + ' y z', 'word ' * 30, '1999', 'tab\there']
 NAME_POOL = ['Knuth, Donald E. and Lamport, Leslie', "de la Vall{\\'e}e Poussin, Charles Louis", 'von Last, Jr, First and {Others and Co}',
              'A. B and C D', 'Jean-Pierre Hansen', 'abc', '']
-FMT_POOL = ['{ff~}{vv~}{ll}{, jj}', '{f.~}{vv~}{ll}', '{vv~}{ll}{, jj}{, f.}', '{ll}', '{l{}}', 'x {f{.}~}', '']
+FMT_POOL = ['{ff~}{vv~}{ll}{, jj}', '{f.~}{vv~}{ll}', '{vv~}{ll}{, jj}{, f.}', '{ll}', '{l{}}', 'x {f{.}~}', '',
+            '{ff~~}{vv~~}{ll}', '{vv~}{ll~~}{jj}', '{f.~~}{ll}', '{ff~}{ll}']
 
 class Ctx(object):
     def __init__(self, rng, loops=True):
